@@ -384,6 +384,12 @@ func (p *Proxy) handleCONNECT(r responder.Responder, proxyReq *http.Request) err
 		// so nobody has read it: closing it discards what is left, instead of leaving it in the tunnel's
 		// reader to be parsed as the next request.
 		req.Body.Close()
+
+		if !req.ProtoAtLeast(1, 1) {
+			// An HTTP/1.0 exchange ends with the connection, as it does on a plain proxied connection: a body of
+			// unknown length has no other end for such a client.
+			break
+		}
 	}
 
 	slog.Debug("Exiting CONNECT tunnel", "host", proxyReq.Host)
